@@ -128,7 +128,13 @@ def c01_step(before, rpc, out, after):
 def c02_step(before, rpc, out, after):
   """SuggestTrials shape rules from the C02 text."""
   v = []
-  if rpc[0] != 'SuggestTrials' or out[0] != 'Done':
+  if rpc[0] != 'SuggestTrials':
+    return v
+  if out[0] != 'Done':
+    # the only documented refusals are a missing study and a study that is not active
+    node = nodes_of(before).get((rpc[1], rpc[2]))
+    if node is not None and node['study']['state'] in ('SS_ACTIVE', 'SS_UNSPEC'):
+      v.append('SuggestTrials on an existing active study failed with %s instead of handing out trials' % (out[1],))
     return v
   _, o, sid, c, count, oracle = rpc
   op = out[2]
